@@ -71,6 +71,30 @@ def gen_cases(rng, tier):
                 h += ['d33', 't2', 'u33', 't5', 'd34', 't2', 'u34', 't400', 'q']
                 cases.append({'id': 'c02-opt-%d' % k, 'cfg': cfg, 'hist': h, 'sub': 'ksim', 'tags': {'mode': 'option-limit', 'option': name}})
                 k += 1
+    # counters that only reach their limit after a long time or by accumulation: two positions carrying the same action with
+    # 65535 in every numeric place, pressed one after the other and held for longer than 65535 ms (a pending decision hands its
+    # age on to the next one), with and without concurrent tap-holds; a per-sequence counter fed its maximum repeatedly
+    k = 0
+    for a in atoms + ['(tap-hold-press {N} {N} x y)', '(tap-hold-release {N} {N} x y)', '(tap-hold-release-keys {N} {N} x y (d))',
+                      '(tap-hold-except-keys {N} {N} x y (d))', '(tap-dance-eager {N} (x y))', '(macro-repeat x {N})', '(chord g c0)']:
+        for conc in ('no', 'yes'):
+            act = a.replace('{N}', '65535')
+            cfg = ('(defcfg concurrent-tap-hold %s)\n(defsrc a s d)\n(deflayer l0 %s %s x)\n(defvirtualkeys v0 y)\n'
+                   '(defchords g 65535 (c0) y (c1) z (c0 c1) (tap-hold 65535 65535 x y))' % (conc, act, act.replace('c0', 'c1')))
+            h = ['t3', 'd30', 't10', 'd31', 't7', 'd32', 't66000', 'u32', 'u30', 'u31', 't700', 'q']
+            cases.append({'id': 'c02-long-%d' % k, 'cfg': cfg, 'hist': h, 'sub': 'ksim', 'tags': {'mode': 'long-hold-at-limit'}})
+            k += 1
+    for n in (1, 65535):
+        cfg = '(defsrc a s d)\n(deflayer l0 sldr (sequence-noerase %d) d)\n(defvirtualkeys v0 x)\n(defseq v0 (d d))' % n
+        h = ['t3', 'd30', 't2', 'u30', 't2'] + ['d31', 't2', 'u31', 't2'] * 4 + ['d32', 't2', 'u32', 't2', 'd32', 't2', 'u32', 't50', 'q']
+        cases.append({'id': 'c02-acc-%d' % n, 'cfg': cfg, 'hist': h, 'sub': 'ksim', 'tags': {'mode': 'accumulating-counter'}})
+    # list-valued parameters with nothing in them (rejected, or safe to run)
+    for j, a in enumerate(['(tap-dance 50 ())', '(tap-dance-eager 50 ())', '(multi)', '(macro)', '(fork x y ())', '(switch)', '(switch ())',
+                           '(tap-hold-release-keys 0 50 x y ())', '(tap-hold-except-keys 0 50 x y ())', '(unmod)', '(macro C-())', '(one-shot 50 (multi))']):
+        cfg = '(defsrc a s d)\n(deflayer l0 %s y x)' % a
+        h = ['t3', 'd30', 't5', 'u30', 't5', 'd30', 't60', 'd31', 't5', 'u30', 'u31', 't100', 'q']
+        cases.append({'id': 'c02-empty-%d' % j, 'cfg': cfg, 'hist': h, 'sub': 'ksim', 'tags': {'mode': 'empty-list'}})
+    k = 0
     # chords v2 actions in every spelling the parser has for them, incl. the transparent key and its unicode aliases (rejected, or safe to run)
     for a in ['x', '_', '‗', '≝', '(multi ‗ c)', '(fork ≝ c (lsft))', '(multi _ c)', 'XX', '✗', '∅', '•', '(tap-hold 0 50 ‗ y)', 'use-defsrc', '(switch () ≝ break)',
               '(layer-while-held l0)', 'rpt', '(one-shot 50 _)', '(tap-dance 50 (_ x))', '(macro _ x)']:
